@@ -1,5 +1,7 @@
 //! Help message generation and rendering
 
+#[cfg(bpaf_verif)]
+use crate::verif::std;
 use crate::{
     args::{Args, State},
     error::Message,
